@@ -108,8 +108,16 @@ RefFirst(script, n) == RefFrom(SubSeq(script, 1, n), 1, TRUE, <<>>, [out |-> <<>
 
 IsPrefixOf(a, b) == Len(a) <= Len(b) /\ SubSeq(b, 1, Len(a)) = a
 
-\* obs = [blocks |-> sequence of [q, prelude] (Unrecognised for a block that is no statement's SQL), exit |-> 0 | 1, errLines |-> n]
-Unrecognised == [q |-> 0, prelude |-> <<>>]
+\* obs = [blocks, exit |-> 0 | 1, errLines |-> n]; a block is [alts |-> the (statement, lets in scope) pairs whose SQL
+\* it is]: several when a let is shadowed or unused (the SQL does not tell which lets were in scope), none when the block
+\* is no statement's SQL at all
+Unrecognised == [alts |-> <<>>]
+Block(b) == [alts |-> <<b>>]
+Blocks(bs) == [i \in DOMAIN bs |-> Block(bs[i])]
+MatchesOne(ob, exp) == \E i \in DOMAIN ob.alts : ob.alts[i] = exp
+\* the observed blocks are the expected ones, in order
+Matches(obs, exp) == Len(obs) = Len(exp) /\ \A i \in DOMAIN exp : MatchesOne(obs[i], exp[i])
+MatchesPrefix(obs, exp) == Len(obs) <= Len(exp) /\ \A i \in DOMAIN obs : MatchesOne(obs[i], exp[i])
 IoJudge(c, o, obs) ==
   LET txt == Text(c)
       args == Args(txt, o)
@@ -120,15 +128,15 @@ IoJudge(c, o, obs) ==
               nb == Len(obs.blocks)
           IN IF obs.exit = 0 THEN "exit status 0 although the input could not be read completely"
              ELSE IF obs.errLines = 0 THEN "the input could not be read completely and nothing is on standard error"
-             ELSE IF ~(IsPrefixOf(obs.blocks, owed)
-                       \/ (nb = Len(owed) + 1 /\ SubSeq(obs.blocks, 1, nb - 1) = owed))
+             ELSE IF ~(MatchesPrefix(obs.blocks, owed)
+                       \/ (nb = Len(owed) + 1 /\ Matches(SubSeq(obs.blocks, 1, nb - 1), owed)))
                   THEN "with unreadable input standard output is not the SQL of the first statements that could be read completely"
              ELSE "ok"
      ELSE LET r == CliRef(c)
               realFails == Cardinality({i \in DOMAIN script : script[i] \in {"LetBad", "QBad"}})
               open == (\E i \in 1..(Len(script) - (IF LastTerminated(c) THEN 0 ELSE 1)) : script[i] = "Empty")
                       \/ (~LastTerminated(c) /\ script[Len(script)] = "LetOk")
-          IN IF obs.blocks # r.out
+          IN IF ~Matches(obs.blocks, r.out)
              THEN "standard output is not the library's SQL for each query statement with the accepted lets in scope"
              ELSE IF realFails > 0 /\ obs.exit = 0 THEN "a statement failed but the exit status is 0"
              ELSE IF realFails = 0 /\ ~open /\ obs.exit # 0 THEN "no statement failed and all input was read but the exit status is not 0"
@@ -147,9 +155,9 @@ IoMachine(c, o) ==
      ELSE LET rd == Readable(txt, args)
               ms == RunLines(ms0, Lines(rd.text), 1, script)
           IN IF rd.err
-             THEN [blocks |-> ms.st.out, exit |-> 1, errLines |-> ms.st.fails + 2]    \* the read error, and main's summary
+             THEN [blocks |-> Blocks(ms.st.out), exit |-> 1, errLines |-> ms.st.fails + 2]    \* the read error, and main's summary
              ELSE LET st == Handle(ms.st, ms.pending, script, TRUE) IN
-                  [blocks |-> st.out, exit |-> IF st.fails > 0 THEN 1 ELSE 0,
+                  [blocks |-> Blocks(st.out), exit |-> IF st.fails > 0 THEN 1 ELSE 0,
                    errLines |-> IF st.fails > 0 THEN st.fails + 1 ELSE 0]                \* one line per failure, and main's summary
 
 ---------------------------------------------------------------------------
@@ -166,7 +174,7 @@ IoMachineMeetsRef ==
   (Complete(ch) /\ IoComplete(io)) =>
     LET m == IoMachine(ch, io) IN
     /\ IoJudge(ch, io, m) = "ok"
-    /\ io[4] \in {"none", "dash1", "dash2", "dash3"} => m.blocks = CliRef(ch).out
+    /\ io[4] \in {"none", "dash1", "dash2", "dash3"} => m.blocks = Blocks(CliRef(ch).out)
 
 \* the judge is not vacuous: it rejects what the property forbids
 IoJudgeRejects ==
